@@ -528,6 +528,9 @@ pub struct GenCfg {
     pub allow_phantom: bool,
     /// `char` has no Encode/Decode impl in parity-scale-codec 3.6 (artifact tier switches it off)
     pub allow_char: bool,
+    /// generic definitions may refer to themselves / later definitions (recursion through a
+    /// generic type defeats the bounds parity-scale-codec's derive generates; artifact tier: off)
+    pub generic_recursion: bool,
     /// PhantomData below Vec/Option/... (registers a PhantomData entry; known generator panic)
     pub nested_phantom: bool,
     pub allow_duration: bool,
@@ -553,6 +556,7 @@ impl Default for GenCfg {
             allow_alias: false,
             allow_phantom: true,
             allow_char: true,
+            generic_recursion: true,
             nested_phantom: false,
             allow_duration: true,
             allow_compact: true,
@@ -706,7 +710,7 @@ impl<'r, R: Rng> ProgGen<'r, R> {
         // earlier defs: any arguments. self / later defs: only below heap; self with identical
         // parameters, later defs only when non-generic (no polymorphic recursion).
         let mut cands: Vec<usize> = (0..cx.me).collect();
-        if heap {
+        if heap && (cx.params.is_empty() || self.cfg.generic_recursion) {
             cands.push(cx.me);
             for j in cx.me + 1..cx.ndefs_planned {
                 if cx.arities[j] == 0 {
